@@ -181,7 +181,7 @@ fn run(sc: &Scenario) -> Result<(), (&'static str, &'static str, String, String)
         let brackets = |v: &Vec<(&'static str, u16, u16, u64)>| -> Vec<&'static str> { v.iter().map(|e| e.0).collect() };
         let (kind, props) = if gd != ed {
             let mut a: Vec<u16> = gd.iter().map(|e| e.0).collect(); let mut b: Vec<u16> = ed.iter().map(|e| e.0).collect(); a.sort(); b.sort();
-            if a != b { ("delivered-set-differs (lost / duplicated / wrongly dropped or queued)", "C07") } else if gd.iter().map(|e| e.0).collect::<Vec<_>>() != ed.iter().map(|e| e.0).collect::<Vec<_>>() { ("delivery-order", "C07 C03 C14") } else { ("delivery-time", "C07") }
+            if a != b { ("delivered-set-differs (lost / duplicated / wrongly dropped or queued)", "C07 C16") } else if gd.iter().map(|e| e.0).collect::<Vec<_>>() != ed.iter().map(|e| e.0).collect::<Vec<_>>() { ("delivery-order", "C07 C03 C14") } else { ("delivery-time", "C07 C16") }
         } else if brackets(&got) != brackets(&exp) { ("processing-bracket", "C14") } else { ("event-log", "C14 C07") };
         return Err((kind, props, format!("{:?}", exp), format!("{:?}", got)));
     }
